@@ -41,7 +41,7 @@ PROPS["C06"] = {
     "level_text": "Theorems (Lean 4, every handler program and every outcome of each transport write): the envelopes a serverStream puts on the wire are accepted by the server->client automaton (optional header-only first, bodies, exactly one trailer with status, response metadata on the first envelope only, constant route, nothing after the trailer); the trailer is present and carries the status whenever the final write succeeds; every envelope carries the stream id; the unary reply is one envelope with header, trailer and body-or-non-OK-status and swaps source/destination. The automata are the executable monitors: every per-id per-direction projection of every wire tap is decided by the Lean driver. Tied to /repo by flags, the serverStream/resetStream/runStream skeletons and an operation-by-operation lock-step of the real serverStream object against the model.",
     "level_note": "Trusted: Lean kernel; extractor; harness wire taps (writers serialised so that tap order = channel order). Client-side emission order and the reset-after-trailer order through the single writer are theorems over the ClientStream / ServerConn transition systems.",
     "technique": "Lean 4 proof (induction over handler programs against a protocol automaton) + executable automata as monitors on real wire taps + lock-step of serverStream",
-    "props": ["Goat.Props.C06"],
+    "props": ["Goat.Props.C06", "Goat.UnaryReply"],
     "tie": ["Goat.Tie.C06"],
     "rule": "lock-step cases: random handler programs (0-7 operations, random write outcomes) on the real serverStream; wire cases: one per (id, direction) projection of the wire taps of mixed concurrent workloads (3 stream kinds x 8 handler programs x 4 client programs, unary ok/error, cancelled and expired streams), both transport kinds; non-trivial = projection has at least one envelope",
     "modelled_not_verified": COMMON_MNV,
